@@ -99,6 +99,13 @@ CLAIMS["C03"] = (
     "DESIGN.md §2 C03",
 )
 
+CLAIMS["C02"] = (
+    "special-case lint with input/row-index taint, loop-bound and insertion-guard recognisers (coset-leader minimality), closed forms of the ML decision and of the Berlekamp-Massey / Chien / Hamming steps",
+    "Structural necessary conditions of 'hard-decision decoders correct <= t errors / complete decoders are ML': no decoder or encoder inverse branches on equality of the syndrome, the received length, the field size or the batch row index with a literal (row index only as subscript); the syndrome table is built by ascending weight over exhaustive supports with first-come insertion from the decoder's own encoder, corrections XOR the leader and messages are extracted by the encoder; the brute-force decoder enumerates all 2^k messages through the encoder and takes the argmin Hamming distance with message and codeword at the same index; Berlekamp-Massey takes t and the field from the encoder, evaluates S_1..S_2t, searches all n positions and flips exactly the located bits; the Hamming inverse locates the check-matrix column equal to the syndrome. Whether the algebraic algorithms actually correct every pattern of weight <= t is behaviour over field values and is not decided (the Reed-Muller majority decoder is a placeholder).",
+    "Trusted: recognisers in props/c02.py (unknown shapes -> exit 2).",
+    "DESIGN.md §2 C02",
+)
+
 NOT_APPLICABLE = {
     "C09": "conjunction at run time of C02/C05/C06/C10/C11/C15 over component pairings and adversarial channels; its structural preconditions (stage order, LLR polarity, label agreement, block framing) are decided under C17, C15, C05, C20 - no additional clause is visible in the shape of the code (DESIGN.md §2 C09)",
 }
